@@ -10,5 +10,5 @@ sed -i "$expr" $d/$file
 if diff -q /repo/$file $d/$file >/dev/null; then echo "MUTATION DID NOT APPLY"; rm -rf $d; exit 3; fi
 diff /repo/$file $d/$file | head -8
 (cd $d && GOFLAGS=-mod=mod GOPROXY=off GOSUMDB=off GOTOOLCHAIN=local go build ./... 2>&1 | head -3)
-/verif/bin/gverif check --property $prop --repo $d --evidence /dev/null --verif /var/tmp/gvmut-verif "$@" 2>&1 | sed "s#$d#<scratch>#g" | tail -12
+/verif/bin/gverif check --property $prop --repo $d --evidence /dev/null --verif /var/tmp/gvmut-verif "$@" 2>&1 | sed "s#$d#<scratch>#g" | tail -${MUT_TAIL:-12}
 rm -rf $d /var/tmp/gvmut-verif
